@@ -365,14 +365,18 @@ func (e *Engine) collect(st *State, out pathOutcome) {
 		}
 	}
 	for _, v := range st.violations {
-		dup := false
+		// keep up to 6 candidate counterexamples per (label, site) that differ in their vrtChoice vector:
+		// the reporter replays them natively in turn until one reproduces
+		same, dup := 0, false
 		for _, o := range e.violations {
 			if o.Label == v.Label && o.Site == v.Site {
-				dup = true
-				break
+				same++
+				if fmt.Sprint(o.Choices) == fmt.Sprint(v.Choices) {
+					dup = true
+				}
 			}
 		}
-		if !dup {
+		if !dup && same < 6 {
 			e.violations = append(e.violations, v)
 		}
 	}
